@@ -48,6 +48,18 @@ def cases(rng, tier):
         yield Case(lines, {"kind": "laws-" + kind, "law": (s, t, k)}, nontrivial=(k in SIZES and k < 20))
         d = rand_user(rng)
         yield Case(["q reduce %s %d %s" % (s, rng.choice(SIZES + [7]), utok(d))], {"kind": "user-alphabet"})
+    # every kind of invalid target for every residue position class: '', lower case, multi-letter runs (also runs that are
+    # substrings of the 20-letter string 'RHKDESTNQCGPAILMFWYV'), non-letters, non-strings
+    base = {a: a for a in gen.AAS}
+    for badv in ["", "a", "k", "DE", "ST", "RHK", "RH", "VY", "AB", "AA", "B", "J", "O", "U", "X", "Z", "1", "*", " ", "A ", None]:
+        for key in ("A", "D", "R", "Y", rng.choice(gen.AAS)):
+            d = dict(base)
+            d[key] = badv
+            yield Case(["q reduce %s 20 %s" % ("MDEDSTRHKDDAGSY", utok(d))], {"kind": "user-alphabet-invalid-target"})
+    for key in gen.AAS:
+        d = dict(base)
+        del d[key]
+        yield Case(["q reduce %s 20 %s" % ("MDEDSTRHKDDAGSY", utok(d))], {"kind": "user-alphabet-missing-key"})
 
 
 def judge(case, reals, gens, specs):
